@@ -279,15 +279,9 @@ def _parse_signature_from_type_hints(
             if hasattr(hint, "__metadata__")
         ]
 
-        out_ax_names = []
-        for arg in return_annotations:
-            # Delete the axis positions so they aren't matched as axis names
-            only_names = re.sub(_AXIS_POSITION, "", arg)
-            out_ax_names.append(tuple(re.findall(_AXIS_NAME, only_names)))
-
-        out_ax_pos = [
-            tuple(re.findall(_AXIS_POSITION, arg)) for arg in return_annotations
-        ]
+        out_split = [_split_annotation(arg) for arg in return_annotations]
+        out_ax_names = [names for names, _ in out_split]
+        out_ax_pos = [positions for _, positions in out_split]
 
     # Now do input args
     arg_annotations = [
@@ -296,13 +290,9 @@ def _parse_signature_from_type_hints(
 
     # TODO check number of annotations?
 
-    in_ax_names = []
-    for arg in arg_annotations:
-        # Delete the axis positions so they aren't matched as axis names
-        only_names = re.sub(_AXIS_POSITION, "", arg)
-        in_ax_names.append(tuple(re.findall(_AXIS_NAME, only_names)))
-
-    in_ax_pos = [tuple(re.findall(_AXIS_POSITION, arg)) for arg in arg_annotations]
+    in_split = [_split_annotation(arg) for arg in arg_annotations]
+    in_ax_names = [names for names, _ in in_split]
+    in_ax_pos = [positions for _, positions in in_split]
 
     # Do a sanity check before going any further
     str_signature = str(
@@ -312,6 +302,14 @@ def _parse_signature_from_type_hints(
         raise ValueError(f"Not a valid grid ufunc signature: {str_signature}")
 
     return in_ax_names, in_ax_pos, out_ax_names, out_ax_pos
+
+
+def _split_annotation(annotation: str) -> Tuple[Tuple[str, ...], Tuple[str, ...]]:
+    """Validate the text of one annotation, e.g. 'X:center,Y:left', and split it."""
+    annotation = annotation.replace(" ", "")
+    if not re.fullmatch(_AXIS_NAME_POSITION_PAIR_LIST, annotation):
+        raise ValueError(f"Not a valid grid ufunc signature: {annotation}")
+    return _split_names_and_positions(annotation)
 
 
 def _maybe_multiple_return_vals(return_hint):
